@@ -102,7 +102,7 @@ class Obj(Engine):
             return {'op': 'rt', 'h': h, 'enc': rng.choice(['canon', 'canon', 'marker-empty', 'nonminimal', 'nonminimal']), 'sel': rng.randrange(64)}
         if r < 0.76:
             return {'op': 'block', 'hs': [rng.randrange(MAXH) for _ in range(rng.randint(1, 3))], 'header': gen.gen_header(rng),
-                    'wire': rng.random() < 0.4}
+                    'wire': rng.random() < 0.4, 'reuse_header': rng.random() < 0.4}
         if r < 0.84:
             return {'op': 'ids', 'h': h}
         if r < 0.89:
@@ -215,6 +215,16 @@ class Obj(Engine):
                 steps = [{'t': 0.0, 'prio': 0, 'party': 0, 'op': 'new', 'args': init}, {'t': 0.0, 'prio': 0, 'party': 0, 'op': 'new', 'args': init2}]
                 steps += [{'t': 0.0, 'prio': 0, 'party': 0, 'op': A[k]['op'], 'args': A[k]} for k in combo]
                 plans.append({'engine': self.name, 'property': [prop], 'config': {'systematic': list(combo)}, 'steps': steps})
+        # transactions whose TOTAL serialised length (stripped, or with witness) sits on a binary boundary - what a
+        # hash or a copy fed in pieces of 64 KiB / 1 MiB would get wrong at the seam.  The plan holds the recipe.
+        for k, (T, which) in enumerate([(t + d, w) for t in (1 << 16, 1 << 20, 1 << 21) for d in (-1, 0, 1) for w in ('stripped', 'full')]):
+            if T > (1 << 20) + 1 and os.environ.get('VERIF_PYMODE'):
+                continue
+            spec = {'version': 2, 'vin': [{'hash': '%064x' % (k + 5), 'n': k, 'script': '51', 'seq': 7}], 'vout': [{'value': 1 + k, 'script': ''}], 'locktime': k,
+                    'wit': [['aa' * (1 + k % 5)]] if (which == 'full' or k % 4 == 0) else None}
+            plans.append({'engine': self.name, 'property': [prop], 'config': {'systematic': 'total-length-on-binary-boundary'}, 'steps': [
+                {'t': 0.0, 'prio': 0, 'party': 0, 'op': 'new', 'args': {'op': 'new', 'kind': 'tx', 'mutable': bool(k % 2), 'spec': spec, 'fill': {'total': T, 'which': which}}},
+                {'t': 0.0, 'prio': 0, 'party': 0, 'op': 'ids', 'args': {'op': 'ids', 'h': 0}}]})
         # objects that arrive from ANOTHER interpreter process (a worker, a file written earlier): built and
         # used there under another hash seed, pickled, restored here
         for k, spec in enumerate((init['spec'], init2['spec'])):
@@ -235,6 +245,7 @@ class Obj(Engine):
         self.ctx = ctx
         self.pool = []
         self.last = 0
+        self.last_wire_header = None
         self.interacted = False
         try:
             for i, st in enumerate(plan['steps']):
@@ -325,6 +336,17 @@ class Obj(Engine):
             if kind in ('header', 'block'):
                 mut = False
             spec = copy.deepcopy(a['spec'])
+            if a.get('fill'):
+                # pad the first output's script until the serialisation has exactly the wanted total length
+                want, full = a['fill']['total'], a['fill']['which'] == 'full'
+                base = len(RW.enc_tx(spec, full))
+                for L in range(max(0, want - base - 8), want - base + 1):
+                    spec['vout'][0]['script'] = '6a' * L
+                    if len(RW.enc_tx(spec, full)) == want:
+                        break
+                else:
+                    raise RuntimeError('HARNESS: cannot pad a transaction to %d bytes' % want)
+                ctx.fault('total-length-on-binary-boundary')
             al = a.get('alias') if (kind == 'tx' and not mut) else None
             if al and len(spec[al[0]]) >= 2 and al[1] % len(spec[al[0]]) != al[2] % len(spec[al[0]]):
                 n = len(spec[al[0]])
@@ -706,6 +728,13 @@ class Obj(Engine):
                 log('skip')
                 return None
             hd = copy.deepcopy(a['header'])
+            if a.get('wire') and a.get('reuse_header') and getattr(self, 'last_wire_header', None):
+                # a DIFFERENT block body behind the very same 80 header bytes (nothing at this level ties the body
+                # to the declared root): the block parsed earlier from that header must not be able to tell
+                hd = copy.deepcopy(self.last_wire_header)
+                ctx.fault('second-block-body-behind-the-same-header')
+            if a.get('wire'):
+                self.last_wire_header = copy.deepcopy({k: v for k, v in hd.items() if k != 'txs'})
             hd['txs'] = mods
             if not a.get('wire'):
                 hd['merkle'] = RW.block_merkle(hd).hex()
